@@ -274,9 +274,9 @@ func checkC12(c *Ctx, r *Report) {
 		want := map[string]string{"auto": "auto", "any": "required", "none": "none"}
 		got := map[string]map[string]string{"string": {}, "object": {}}
 		hasTool := false
-		for _, ret := range returnsOf(tc) {
+		for _, vr := range virtualReturns(tc, 0) {
 			form, in := "", ""
-			for _, cf := range condFacts(ret.Block()) {
+			for _, cf := range vr.Facts {
 				if !cf.True {
 					continue
 				}
@@ -298,7 +298,7 @@ func checkC12(c *Ctx, r *Report) {
 				}
 			}
 			// nearest form: the innermost type-assert fact decides; object form facts appear closer to the return
-			for _, cf := range condFacts(ret.Block()) {
+			for _, cf := range vr.Facts {
 				if ex, ok := cf.Cond.(*ssa.Extract); ok && ex.Index == 1 && cf.True {
 					if ta, ok := ex.Tuple.(*ssa.TypeAssert); ok {
 						if strings.Contains(ta.AssertedType.String(), "map[") && !strings.Contains(ta.AssertedType.String(), "string]interface") {
@@ -311,7 +311,7 @@ func checkC12(c *Ctx, r *Report) {
 					}
 				}
 			}
-			res := retResult(ret, 0)
+			res := vr.Val
 			if mi, ok := res.(*ssa.MakeInterface); ok {
 				res = mi.X
 			}
@@ -585,6 +585,44 @@ func isWriteEvent(fn *ssa.Function) bool {
 		return v == 1
 	}
 	writeEventMemo[fn] = 0
+	// the frame may also be assembled by hand (strings.Builder, concatenation) and handed to one Write: what makes a
+	// function the event writer is that it takes the event name and a payload, marshals the payload, uses the
+	// constant "event: " and writes to its writer parameter
+	hasStr, hasWriter, marshals, frameConst, writes := false, false, false, false, false
+	for _, p := range fn.Params {
+		if p.Type().String() == "string" {
+			hasStr = true
+		}
+		if isNamed(p.Type(), "net/http", "ResponseWriter") || isNamed(p.Type(), "io", "Writer") {
+			hasWriter = true
+		}
+	}
+	eachInstr(fn, func(in ssa.Instruction) {
+		for _, op := range in.Operands(nil) {
+			if op != nil && *op != nil {
+				if k, ok := constString(*op); ok && strings.HasPrefix(k, "event: ") {
+					frameConst = true
+				}
+			}
+		}
+		if cc := getCall(in); cc != nil {
+			ci := describeCall(cc)
+			if ci.Name == "Marshal" && strings.HasSuffix(ci.Pkg, "json") {
+				marshals = true
+			}
+			if cc.IsInvoke() && (cc.Method.Name() == "Write" || cc.Method.Name() == "WriteString") {
+				if _, isP := cc.Value.(*ssa.Parameter); isP {
+					writes = true
+				}
+			}
+			if (ci.Pkg == "fmt" && strings.HasPrefix(ci.Name, "Fprint")) || (ci.Pkg == "io" && ci.Name == "WriteString") {
+				writes = true
+			}
+		}
+	})
+	if hasStr && hasWriter && marshals && frameConst && writes {
+		writeEventMemo[fn] = 1
+	}
 	eachInstr(fn, func(in ssa.Instruction) {
 		if cc := getCall(in); cc != nil {
 			ci := describeCall(cc)
